@@ -1,9 +1,11 @@
 package xmp
 
 import (
+	"bytes"
 	"fmt"
 	"math"
 	"strconv"
+	"strings"
 	"time"
 
 	"github.com/evanoberholster/imagemeta/meta"
@@ -118,8 +120,14 @@ func parseFloat64(buf []byte) (f float64) {
 	return
 }
 
+// xmlEntities are the five predefined XML entities.
+var xmlEntities = strings.NewReplacer("&lt;", "<", "&gt;", ">", "&quot;", "\"", "&apos;", "'", "&amp;", "&")
+
 // parseString parses a []byte and returns a string
 func parseString(buf []byte) string {
+	if bytes.IndexByte(buf, '&') >= 0 {
+		return xmlEntities.Replace(string(buf))
+	}
 	return string(buf)
 }
 
